@@ -160,6 +160,8 @@ __CPROVER_ensures(IMPLIES(i >= n, __CPROVER_return_value == i))
 __CPROVER_ensures(IMPLIES(i < n, i <= __CPROVER_return_value && __CPROVER_return_value <= n))
 __CPROVER_ensures(IMPLIES(i <= g_k && g_k < __CPROVER_return_value && g_k < n, SPEC_SX_ISSPACE(s[g_k])))
 __CPROVER_ensures(IMPLIES(i < n && __CPROVER_return_value < n, !SPEC_SX_ISSPACE(s[__CPROVER_return_value])))
+/* exactly: the table entry (spec/sx.h, input length <= SX_QMAX) */
+__CPROVER_ensures(IMPLIES(SX_RUNS_OK(s, n) && i <= n, __CPROVER_return_value == g_sxW[i]))
 ;
 
 /* token class at s[i]; reads only below n */
@@ -180,6 +182,7 @@ __CPROVER_ensures(__CPROVER_old(*i) < *i && *i <= n)
 __CPROVER_ensures(IMPLIES(__CPROVER_old(*i) <= g_k && g_k < *i, SPEC_SX_ISSYMCH(s[g_k])))
 __CPROVER_ensures(IMPLIES(*i < n, !SPEC_SX_ISSYMCH(s[*i])))
 __CPROVER_ensures(SPEC_SX_ISSYMCH(s[*i - 1]))
+__CPROVER_ensures(IMPLIES(SX_RUNS_OK(s, n), *i == g_sxS[__CPROVER_old(*i)]))
 __CPROVER_ensures((__CPROVER_return_value == NULL) == (*i < n && !SPEC_SX_ISDELIM(s[*i])))
 __CPROVER_ensures(IMPLIES(__CPROVER_return_value != NULL,
     SX_NODE_FRESH(__CPROVER_return_value) && __CPROVER_return_value->type == SXT_SYMBOL
@@ -215,6 +218,8 @@ __CPROVER_ensures(__CPROVER_old(*i) + (offset) < *i && *i <= n) \
 __CPROVER_ensures(IMPLIES(__CPROVER_old(*i) + (offset) <= g_k && g_k < *i, SX_ISBASEDIGIT(base, s[g_k]))) \
 __CPROVER_ensures(IMPLIES(*i < n, !SX_ISBASEDIGIT(base, s[*i]))) \
 __CPROVER_ensures(SX_ISBASEDIGIT(base, s[*i - 1])) \
+__CPROVER_ensures(IMPLIES(SX_RUNS_OK(s, n), \
+    *i == ((base) == 10 ? g_sxD[__CPROVER_old(*i) + (offset)] : g_sxX[__CPROVER_old(*i) + (offset)]))) \
 __CPROVER_ensures((__CPROVER_return_value == NULL) == (*i < n && !SPEC_SX_ISDELIM(s[*i]))) \
 __CPROVER_ensures(IMPLIES(__CPROVER_return_value != NULL, \
     SX_NODE_FRESH(__CPROVER_return_value) && __CPROVER_return_value->type == SXT_INTEGER)) \
@@ -313,12 +318,32 @@ static inline bool sx_token_post_text(const char *s, size_t n, size_t i, struct 
   return true;
 }
 
+/* exactly (input length <= SX_QMAX): status, position and node type as a
+ * function of the text, through the tables of spec/sx.h */
+static inline bool sx_token_post_exact(const char *s, size_t n, size_t i, struct sx_parse_result r)
+{
+  const size_t j = g_sxW[i];
+  if (j >= n) return r.status == SXS_SUCCESS && r.node == NULL && r.position == 0;
+  const int c = spec_sx_looking_at(s, n, j);
+  if (c == SPEC_SX_AT_OPEN) return r.status == SXS_FOUND_LIST && r.node == NULL && r.position == j + 1;
+  if (c == SPEC_SX_AT_CLOSE)
+    return r.status == SXS_SUCCESS && r.node != NULL && r.node->type == SXT_EMPTY_LIST && r.position == j + 1;
+  if (c == SPEC_SX_AT_UNKNOWN) return r.status == SXS_UNKNOWN_INPUT && r.node == NULL && r.position == j;
+  const size_t e = (c == SPEC_SX_AT_SYMBOL) ? g_sxS[j] : (c == SPEC_SX_AT_INT_DEC) ? g_sxD[j] : g_sxX[j + 2];
+  if (r.position != e) return false;
+  if (e < n && !SPEC_SX_ISDELIM(s[e]))
+    return r.node == NULL && r.status == ((c == SPEC_SX_AT_SYMBOL) ? SXS_BROKEN_SYMBOL : SXS_BROKEN_INTEGER);
+  return r.status == SXS_SUCCESS && r.node != NULL
+         && r.node->type == ((c == SPEC_SX_AT_SYMBOL) ? SXT_SYMBOL : SXT_INTEGER);
+}
+
 struct sx_parse_result sx_parse_token(const char *s, const size_t n, const size_t i)
 __CPROVER_requires(__CPROVER_r_ok(s, n) && i <= n)
 __CPROVER_assigns(g_sx_live)
 __CPROVER_ensures(IMPLIES(SX_RV.node != NULL, SX_NODE_FRESH(SX_RV.node)))
 __CPROVER_ensures(sx_token_post_status(s, n, i, SX_RV))
 __CPROVER_ensures(sx_token_post_text(s, n, i, SX_RV, g_k))
+__CPROVER_ensures(IMPLIES(SX_RUNS_OK(s, n), sx_token_post_exact(s, n, i, SX_RV)))
 /* ledger */
 __CPROVER_ensures(g_sx_live == __CPROVER_old(g_sx_live)
     + (SX_RV.node == NULL ? 0 : SX_RV.node->type == SXT_SYMBOL ? 2 : 1))
@@ -358,11 +383,55 @@ static inline bool sx_expr_post(const char *s, size_t n, size_t i, struct sx_par
   return ty == SXT_INTEGER && SPEC_SX_ISXDIGIT(last);
 }
 
+/* exactly (input length <= SX_QMAX): the tables E / L of spec/sx.h say where
+ * the expression / the rest of the list ends, or that there is none */
+static inline enum sx_node_type sx_tail_root_type(const char *s, size_t n, size_t k)
+{
+  const size_t j = g_sxW[k];
+  return (j < n && s[j] == ')') ? SXT_EMPTY_LIST : SXT_PAIR;
+}
+static inline enum sx_node_type sx_expr_root_type(const char *s, size_t n, size_t j)
+{
+  const int c = spec_sx_looking_at(s, n, j);
+  if (c == SPEC_SX_AT_SYMBOL) return SXT_SYMBOL;
+  if (c == SPEC_SX_AT_OPEN) return sx_tail_root_type(s, n, j + 1);
+  return SXT_INTEGER;
+}
+/* sx_parse_: a closing parenthesis is reported as an empty-list node (it is
+ * the terminator that sx_parse_list consumes and that sx_parse rejects) */
+static inline bool sx_expr_post_exact(const char *s, size_t n, size_t i, struct sx_parse_result r)
+{
+  const size_t j = g_sxW[i];
+  if (j < n && s[j] == ')')
+    return r.status == SXS_SUCCESS && r.node != NULL && r.node->type == SXT_EMPTY_LIST && r.position == j + 1;
+  const size_t e = g_sxE[i];
+  if (e > n) return r.status != SXS_SUCCESS;
+  return r.status == SXS_SUCCESS && r.node != NULL && r.position == e
+         && r.node->type == sx_expr_root_type(s, n, j);
+}
+/* sx_parse_list: the list is the expression at i consed onto the rest of the
+ * list behind it -- the induction step of "the tree is the expression" */
+static inline bool sx_tail_post_exact(const char *s, size_t n, size_t i, struct sx_parse_result r)
+{
+  const size_t e = g_sxL[i];
+  if (e > n) return r.status != SXS_SUCCESS;
+  if (!(r.status == SXS_SUCCESS && r.node != NULL && r.position == e)) return false;
+  const enum sx_node_type ty = sx_tail_root_type(s, n, i);
+  if (r.node->type != ty) return false;
+  if (ty == SXT_EMPTY_LIST) return true;
+  const struct sx_node *car = r.node->data.pair->car, *cdr = r.node->data.pair->cdr;
+  return car != NULL && cdr != NULL
+         && car->type == sx_expr_root_type(s, n, g_sxW[i])
+         && cdr->type == sx_tail_root_type(s, n, g_sxE[i]);
+}
+#define SX_IS_PAIR_RESULT(r) ((r).status == SXS_SUCCESS && (r).node != NULL && (r).node->type == SXT_PAIR)
+
 static struct sx_parse_result sx_parse_(const char *s, size_t n, size_t i)
 __CPROVER_requires(__CPROVER_r_ok(s, n) && i <= n)
 __CPROVER_assigns(g_sx_live)
 __CPROVER_ensures(IMPLIES(SX_RV.node != NULL, SX_NODE_FRESH(SX_RV.node)))
 __CPROVER_ensures(sx_expr_post(s, n, i, SX_RV, false))
+__CPROVER_ensures(IMPLIES(SX_GRAMMAR_OK(s, n), sx_expr_post_exact(s, n, i, SX_RV)))
 ;
 
 static struct sx_parse_result sx_parse_list(const char *s, size_t n, size_t i)
@@ -371,6 +440,73 @@ __CPROVER_assigns(g_sx_live)
 __CPROVER_ensures(IMPLIES(SX_RV.node != NULL, SX_NODE_FRESH(SX_RV.node)))
 __CPROVER_ensures(sx_expr_post(s, n, i, SX_RV, true))
 __CPROVER_ensures(IMPLIES(i >= n, SX_RV.status == SXS_UNEXPECTED_END && SX_RV.node == NULL))
+/* a successfully read non-empty list: fresh pair cell, fresh children */
+__CPROVER_ensures(IMPLIES(SX_IS_PAIR_RESULT(SX_RV),
+    __CPROVER_is_fresh(SX_RV.node->data.pair, sizeof(struct sx_pair))
+    && SX_NODE_FRESH(SX_RV.node->data.pair->car) && SX_NODE_FRESH(SX_RV.node->data.pair->cdr)))
+__CPROVER_ensures(IMPLIES(SX_GRAMMAR_OK(s, n), sx_tail_post_exact(s, n, i, SX_RV)))
+;
+
+/* ---- public entry points --------------------------------------------------
+ * From the property statement: the input begins (after whitespace) with a
+ * complete expression  <=>  SXS_SUCCESS; then a tree is returned whose root
+ * is that expression's, and position is just past the expression.  Otherwise
+ * an error status and NO tree.  position <= n, nothing outside s[0..n) is
+ * read.  (sx_destroy is used through its contract; "nothing leaked" needs
+ * the size of the partial tree and is decided by the bounded targets.) */
+static inline bool sx_parse_post(const char *s, size_t n, size_t i, struct sx_parse_result r)
+{
+  const enum sx_status st = r.status;
+  if (!(st == SXS_SUCCESS || st == SXS_BROKEN_INTEGER || st == SXS_BROKEN_SYMBOL
+        || st == SXS_UNKNOWN_INPUT || st == SXS_UNEXPECTED_END)) return false;
+  if (r.position > n) return false;
+  if (st != SXS_SUCCESS) return r.node == NULL;
+  return r.node != NULL && i < r.position && !SPEC_SX_ISSPACE(s[r.position - 1]);
+}
+static inline bool sx_parse_post_exact(const char *s, size_t n, size_t i, struct sx_parse_result r)
+{
+  const size_t e = g_sxE[i];
+  if (e > n) return r.status != SXS_SUCCESS && r.node == NULL;
+  return r.status == SXS_SUCCESS && r.node != NULL && r.position == e
+         && r.node->type == sx_expr_root_type(s, n, g_sxW[i]);
+}
+
+/* every node and symbol of the tree is given back; the caller's pointer is
+ * cleared.  The tree below *n must be one built by this module (constructors
+ * / reader): a data-structure invariant that a non-recursive precondition
+ * cannot state; targets sx_destroy_trees and whole_* exercise the real
+ * function on real trees (tier B). */
+void sx_destroy(struct sx_node **n)
+__CPROVER_requires(__CPROVER_rw_ok(n, sizeof(*n)))
+__CPROVER_assigns(*n, g_sx_live)
+__CPROVER_ensures(*n == NULL)
+;
+
+struct sx_parse_result sx_parse(const char *s, const size_t n, const size_t i)
+__CPROVER_requires(__CPROVER_r_ok(s, n) && i <= n)
+__CPROVER_assigns(g_sx_live)
+__CPROVER_ensures(IMPLIES(SX_RV.node != NULL, SX_NODE_FRESH(SX_RV.node)))
+__CPROVER_ensures(sx_parse_post(s, n, i, SX_RV))
+__CPROVER_ensures(IMPLIES(SX_GRAMMAR_OK(s, n), sx_parse_post_exact(s, n, i, SX_RV)))
+;
+
+struct sx_parse_result sx_parse_stringn(const char *s, const size_t n)
+__CPROVER_requires(__CPROVER_r_ok(s, n))
+__CPROVER_assigns(g_sx_live)
+__CPROVER_ensures(IMPLIES(SX_RV.node != NULL, SX_NODE_FRESH(SX_RV.node)))
+__CPROVER_ensures(sx_parse_post(s, n, 0, SX_RV))
+__CPROVER_ensures(IMPLIES(SX_GRAMMAR_OK(s, n), sx_parse_post_exact(s, n, 0, SX_RV)))
+;
+
+/* NUL-terminated entry point: g_a is the length (the position of the first
+ * NUL); the result is that of the length-delimited reader on s[0..g_a) */
+struct sx_parse_result sx_parse_string(const char *s)
+__CPROVER_requires(g_a <= SX_QMAX && __CPROVER_r_ok(s, g_a + 1) && s[g_a] == '\0')
+__CPROVER_requires(__CPROVER_forall { size_t k_; (k_ < SX_QMAX) ==> ((k_ < g_a) ==> s[k_] != '\0') })
+__CPROVER_assigns(g_sx_live)
+__CPROVER_ensures(IMPLIES(SX_RV.node != NULL, SX_NODE_FRESH(SX_RV.node)))
+__CPROVER_ensures(sx_parse_post(s, g_a, 0, SX_RV))
+__CPROVER_ensures(IMPLIES(SX_GRAMMAR_OK(s, g_a), sx_parse_post_exact(s, g_a, 0, SX_RV)))
 ;
 
 #endif
